@@ -11,9 +11,10 @@
   writers, readers and the collector (`List DOp` / `List MOp`; a reader's move to
   the next segment is two separate steps so that the collector can run in
   between). The only hypothesis on the list is the callers' protocol
-  `Disk.wf` (a stream writer continues where the held stream ends, snapshot
-  chunks stay within the announced size, the directory is re-scanned only with
-  nothing open).
+  `Disk.wf`: a stream writer continues where the held stream ends, snapshot
+  chunks stay within the announced size, and the replication id is SWITCHED only
+  between two runs of the input (no writer open — readers may be open; the same
+  id again, as at every source reconnect, is always allowed).
 -/
 import GunYu.Model.Store
 import GunYu.Proofs.StoreDisk
@@ -115,22 +116,49 @@ theorem disk_closed_reader_frozen (l m : Nat) (ops : List DOp) (hwf : (Disk.init
       r'.id = r.id ∧ r'.isOpen = false ∧ r'.out = r.out :=
   closed_reader_frozen ((DInv.init l m).run ops hwf) op hr hc
 
-/-- the invalidation events of the property do close the readers: a reset
-    closes every reader, a new stream writer closes every stream reader -/
-theorem disk_reset_closes_readers (s : Disk) : ∀ r ∈ s.reset.readers, r.isOpen = false := by
-  intro r hr
-  simp only [Disk.reset, closeAllReaders] at hr
-  obtain ⟨y, _, rfl⟩ := List.mem_map.mp hr
-  rfl
+/-- **invalidation events close the readers.** A reset (new snapshot, id delete)
+    and a replication-id switch leave no reader open; a new stream writer leaves
+    no stream reader open. -/
+theorem disk_invalidation_closes_readers (s : Disk) :
+    (∀ off size, ∀ r ∈ (s.step (.newRdbWriter off size)).1.readers, r.isOpen = false) ∧
+    (s.runId ≠ "" → ∀ r ∈ (s.step .delRunId).1.readers, r.isOpen = false) ∧
+    (∀ id, s.runId ≠ "" → id ≠ s.runId → ∀ r ∈ (s.step (.setRunId id)).1.readers, r.isOpen = false) ∧
+    (∀ off, ∀ r ∈ (s.step (.newAofWriter off)).1.readers, r.isAof = true → r.isOpen = false) := by
+  have hreset : ∀ r ∈ s.reset.readers, r.isOpen = false := by
+    intro r hr
+    simp only [Disk.reset, closeAllReaders] at hr
+    obtain ⟨y, _, rfl⟩ := List.mem_map.mp hr
+    rfl
+  refine ⟨fun _ _ r hr => hreset r hr, fun hne r hr => ?_, fun id hne hid r hr => ?_, fun off r hr ha => ?_⟩
+  · simp only [Disk.step, hne, if_false] at hr; exact hreset r hr
+  · simp only [Disk.step, hne, hid, if_false] at hr
+    have hr' : r ∈ s.closeAllForSwitch.rescan.readers := hr
+    rw [(rescan_hist _).2.2] at hr'
+    -- every reader was closed first; closing the live segment only closes more
+    unfold Disk.closeAllForSwitch at hr'
+    refine closeLive_readers_closed _ ?_ r hr'
+    intro x hx
+    rw [(dropWritingRdb_fields _).2.2.1] at hx
+    have hx' : x ∈ closeAllReaders s.readers := hx
+    simp only [closeAllReaders] at hx'
+    obtain ⟨y, _, rfl⟩ := List.mem_map.mp hx'
+    rfl
+  · simp only [Disk.step, closeAofReaders] at hr
+    obtain ⟨y, _, rfl⟩ := List.mem_map.mp hr
+    by_cases hy : y.isAof = true
+    · simp [hy, DReader.close]
+    · simp [hy] at ha
 
-theorem disk_writer_replacement_closes_stream_readers (s : Disk) (off : Nat) :
-    ∀ r ∈ (s.step (.newAofWriter off)).1.readers, r.isAof = true → r.isOpen = false := by
-  intro r hr ha
-  simp only [Disk.step, closeAofReaders] at hr
-  obtain ⟨y, _, rfl⟩ := List.mem_map.mp hr
-  by_cases hy : y.isAof = true
-  · simp [hy, DReader.close]
-  · simp [hy] at ha
+/-- **nothing else closes a reader.** Appends, rotation, collector passes, reads,
+    rotation steps of any reader, opening other readers and snapshot appends never
+    close a reader: after any such step an open reader is still open. (The closing
+    operations are exactly `closesReaders`: reset, id switch, writer replacement,
+    the end of a writer, the reader's own close.) -/
+theorem disk_reader_stays_open (l m : Nat) (ops : List DOp) (hwf : (Disk.init l m).wf ops) (op : DOp)
+    (hop : closesReaders op = false) :
+    let s := (Disk.init l m).run ops
+    ∀ r ∈ s.readers, r.isOpen = true → ∃ r' ∈ (s.step op).1.readers, r'.id = r.id ∧ r'.isOpen = true :=
+  fun r hr ho => reader_stays_open ((DInv.init l m).run ops hwf) op hr ho hop
 
 /-- **keeps following (disk).** A valid stream reader that has not yet read
     everything that was appended can always take a step: either a read delivers
@@ -164,6 +192,42 @@ theorem disk_snapshot_offered_iff_complete (l m : Nat) (ops : List DOp) (hwf : (
       ∃ r, s.rdb = some r ∧ ((r.final = true ∧ r.data.length = r.size) ∨ r.writing = true) :=
   getRdb_iff ((DInv.init l m).run ops hwf)
 
+/-- **snapshot hands over to the stream.** Whenever a snapshot is indexed and
+    stream segments are held, the snapshot's offset lies in an indexed segment: a
+    consumer that replayed the snapshot can continue at `snapshot.left` without a hole. -/
+theorem disk_snapshot_hands_over (l m : Nat) (ops : List DOp) (hwf : (Disk.init l m).wf ops) :
+    let s := (Disk.init l m).run ops
+    ∀ r, s.rdb = some r → s.all ≠ [] → s.inRange r.left = true ∧ (indexAof s.all r.left).isSome = true := by
+  intro s r hr hne
+  have hinv : DInv s := (DInv.init l m).run ops hwf
+  have hidx := snapshot_hands_over hinv r hr hne
+  refine ⟨?_, hidx⟩
+  -- a fresh reader id always exists; use valid ⇔ readable backwards
+  obtain ⟨g, hg⟩ := Option.isSome_iff_exists.mp hidx
+  obtain ⟨_, hl, hrr⟩ := indexAof_some hg
+  -- direct: the range contains r.left
+  unfold Disk.inRange Disk.range
+  cases hfl : firstLeft s.all with
+  | none =>
+    cases hall : s.all with
+    | nil => exact absurd hall hne
+    | cons a t => rw [hall] at hfl; simp [firstLeft] at hfl
+  | some f =>
+    cases hlr : lastRight s.all with
+    | none => exact absurd (lastRight_eq_none.mp hlr) hne
+    | some rr =>
+      have hal := hinv.rdbAlign r f hr hfl
+      have hgr : g.right ≤ rr := contig_right_le_last hinv.contig (indexAof_some hg).1 hlr
+      simp only [hr, hfl, hlr]
+      simp
+      omega
+
+/-- the collector drops the snapshot only when nothing references it (no reader
+    is replaying it, no writer is writing it) -/
+theorem disk_gc_drops_only_unreferenced_snapshot (s : Disk) (r : DRdb) (hr : s.rdb = some r)
+    (hg : s.gc.rdb = none) : rdbRef s.readers r = 0 :=
+  gc_snapshot_branch s r hr hg
+
 /-! ### non-vacuity: a concrete history with rotation, collection and a reader
     that follows across segments -/
 
@@ -180,6 +244,10 @@ example : (((Disk.init 24 12).run exOps).readers.map (fun r => (r.start, r.pos, 
 example : ((Disk.init 24 12).run exOps).segs.map (·.left) = [110, 120] := by decide
 example : ((Disk.init 24 12).run exOps).abs.base = 110 ∧
     ((Disk.init 24 12).run exOps).abs.bytes = [11,12,13,14,15,16,17,18,19,20,21,22,23,24,25,26,27,28,29,30] := by decide
+-- the same id again (a source reconnect) leaves the open reader untouched; an id switch closes it
+example : (((Disk.init 24 12).run (exOps ++ [.setRunId "id1"])).readers.map (·.isOpen)) = [true] := by decide
+example : (((Disk.init 24 12).run (exOps ++ [.aofClose, .setRunId "id2"])).readers.map (·.isOpen)) = [false] ∧
+    (Disk.init 24 12).wf (exOps ++ [.aofClose, .setRunId "id2"]) := by decide
 example : ((Disk.init 24 12).run exOps).inRange 105 = false ∧ ((Disk.init 24 12).run exOps).inRange 125 = true := by decide
 
 /-! ## Memory backend
